@@ -68,7 +68,7 @@ Variable cfg : config.
 Variable translate : bytes -> seginfo -> list cand.
 
 Definition init_state : state :=
-  mkSt (mkCtx [] 0 (mkSegm [] []) [(opt_auto_commit, negb (cf_fluid cfg))] None None) [] [] [] [].
+  mkSt (mkCtx [] 0 (mkSegm [] []) [(opt_auto_commit, negb (cf_fluid cfg))] None None) [] [] [] [] 0%Z.
 
 (** RimeGetContext's menu part *)
 Definition menu_view (c : context) : option menu_obs * bool :=
@@ -164,7 +164,7 @@ Definition exec (s : state) (o : op) : state * ret :=
   | OpGetCommit =>
     match st_commit s with
     | [] => (s, RCommit None)
-    | t => (mkSt (st_ctx s) (st_nav_input s) (st_spans s) [] (st_odd s), RCommit (Some t))
+    | t => (mkSt (st_ctx s) (st_nav_input s) (st_spans s) [] (st_odd s) (st_kb_last s), RCommit (Some t))
     end
   | OpGetContext | OpGetInput | OpGetCaret | OpGetStatus => (s, RNone)
   | OpSetOption name v => (st_with_ctx s (set_option cfg translate (st_ctx s) name v), RNone)
